@@ -49,7 +49,7 @@ def run(ctx):
 
     def shard(i, start):
         out = os.path.join(ctx.scratch, "x-%d-%d.ndjson" % (i, start))
-        env = dict(os.environ, VERIF_SEED=str(ctx.seed))
+        env = dict(os.environ, VERIF_SEED=str(ctx.seed), VERIF_C10_DC_EVERY="1" if ctx.tier == "quick" else "2")
         if i == 0 and start == 0:
             env["VERIF_C10_KEEP"] = keep
         p = subprocess.Popen([os.path.join(ctx.bindir, "unit-verif"), "c10", dpath, out, str(start), str(i), str(nsh)],
@@ -63,7 +63,7 @@ def run(ctx):
     while procs:
         i, start, p, out = procs.pop(0)
         try:
-            _, err = p.communicate(timeout=3000)
+            _, err = p.communicate(timeout=6000)
         except subprocess.TimeoutExpired:
             p.kill()
             raise vf.Inconclusive("extractor worker timed out as a whole")
